@@ -298,6 +298,35 @@ Example C19_ok_rejects :
             [{| a_name := str_a; a_has := false; a_supports := false |}] = false.
 Proof. repeat split; vm_compute; reflexivity. Qed.
 
+(* "encoded as the mechanism prescribes": RFC 4648 section 4 — the STANDARD alphabet with padding.
+   [b64_decode] accepts only A-Z a-z 0-9 + / (and '=' padding), so C19_base64_roundtrip pins the
+   alphabet of [b64_encode].  PLAIN for ("", "bot", "top~secret") owes AGJvdAB0b3B+c2VjcmV0; the
+   URL-safe spelling AGJvdAB0b3B-c2VjcmV0 is neither decodable nor accepted by the checker *)
+Definition cfg_tilde : caps_cfg :=
+  {| cf_wanted := [];
+     cf_sasl := Some (sasl_plain [] [98;111;116]%N [116;111;112;126;115;101;99;114;101;116]%N) |}.
+Definition b64_tilde_std : bytes := [65;71;74;118;100;65;66;48;98;51;66;43;99;50;86;106;99;109;86;48]%N.
+Definition b64_tilde_url : bytes := [65;71;74;118;100;65;66;48;98;51;66;45;99;50;86;106;99;109;86;48]%N.
+Example C19_standard_alphabet :
+  map snd (snd (run fields cfg_tilde cstate0
+    [ev s_CAP [star; s_ACK; s_sasl]; ev s_AUTHENTICATE [s_plus]]))
+  = [[line_auth s_PLAIN]; [line_auth b64_tilde_std]]
+  /\ b64_decode b64_tilde_std = Some [0;98;111;116;0;116;111;112;126;115;101;99;114;101;116]%N
+  /\ b64_decode b64_tilde_url = None
+  /\ C19_ok fields cfg_tilde [(ev s_CAP [star; s_ACK; s_sasl], [line_auth s_PLAIN]);
+                              (ev s_AUTHENTICATE [s_plus], [line_auth b64_tilde_std])] [] = true
+  /\ C19_ok fields cfg_tilde [(ev s_CAP [star; s_ACK; s_sasl], [line_auth s_PLAIN]);
+                              (ev s_AUTHENTICATE [s_plus], [line_auth b64_tilde_url])] [] = false.
+Proof. repeat split; vm_compute; reflexivity. Qed.
+
+(* the IRCv3 framing the checker also accepts (handlers.go sends ONE line, see its TODOs):
+   a 1000-byte payload = 400 + 400 + 200; an 800-byte one = 400 + 400 + "+" *)
+Example C19_chunks :
+  map (@length N) (sasl_chunks (repeat 65%N 1000)) = [400; 400; 200]%nat
+  /\ sasl_chunks (repeat 65%N 800) = [repeat 65%N 400; repeat 65%N 400; s_plus]
+  /\ sasl_chunks b64_tilde_std = [b64_tilde_std] /\ sasl_chunks s_plus = [s_plus].
+Proof. repeat split; vm_compute; reflexivity. Qed.
+
 Print Assumptions tie_C19.
 Print Assumptions C19_all.
 Print Assumptions C19_request.
